@@ -24,7 +24,7 @@ def getQ (j : Json) : Except String Q := do
 
 def qJson (q : Q) : Json := Json.mkObj [("si", ratJson q.si), ("dim", dimJson q.dim)]
 
-def getEnvVal (j : Json) : Except String EnvVal := do
+def getKinEnvVal (j : Json) : Except String EnvVal := do
   match fieldOpt j "q" with
   | some q => return .single (← getQ q)
   | none =>
@@ -36,7 +36,7 @@ def getEnvVal (j : Json) : Except String EnvVal := do
 
 def getPyReaction (j : Json) : Except String PyReaction := do
   return { sub := ← getNatList (← field j "sub"), prod := ← getNatList (← field j "prod"),
-           kf := ← getEnvVal (← field j "kf"), kr := ← getEnvVal (← field j "kr") }
+           kf := ← getKinEnvVal (← field j "kf"), kr := ← getKinEnvVal (← field j "kr") }
 
 def getPySpace (sp : Json) : Except String PySpace := do
   let kind ← getStr (← field sp "kind")
@@ -54,7 +54,7 @@ def getPySpace (sp : Json) : Except String PySpace := do
 
 def getPySys (j : Json) : Except String PySys := do
   return { nSpecies := ← getNat (← field j "ns")
-           dcoef := ← (← getArr (← field j "D")).mapM getEnvVal
+           dcoef := ← (← getArr (← field j "D")).mapM getKinEnvVal
            reactions := ← (← getArr (← field j "reactions")).mapM getPyReaction
            envs := ← getStrList (← field j "envs")
            space := ← getPySpace (← field j "space")
